@@ -73,6 +73,16 @@ def plain_ct(ct):
 def top_const(ct):
     """is the object itself const (not merely a pointer / reference to const)?"""
     t = (ct or '').strip()
+    # template arguments do not matter for the qualification of the object itself
+    depth, outer = 0, []
+    for ch in t:
+        if ch == '<':
+            depth += 1
+        elif ch == '>':
+            depth -= 1
+        elif depth == 0:
+            outer.append(ch)
+    t = ''.join(outer).strip()
     if t.endswith('&') or t.endswith('*'):
         return False
     if '*' in t:
